@@ -720,6 +720,21 @@ func (e *Exec) mutate(p *Pending, class string, args []string) (tx *pb.Transacti
 		}
 		tx.TxOutputsExt = append(tx.TxOutputsExt[:i:i], tx.TxOutputsExt[i+1:]...)
 		expect = "reject"
+	case "noreq": // the requests, the read set and the stored writes are dropped: only the transient declarations
+		// (contract transfer, events) remain, with nothing that could have produced them
+		var keep []*protos.TxOutputExt
+		for _, o := range tx.TxOutputsExt {
+			if o.Bucket == xmodel.TransientBucket {
+				keep = append(keep, o)
+			}
+		}
+		if len(keep) == 0 {
+			return nil, "n/a"
+		}
+		tx.ContractRequests = nil
+		tx.TxInputsExt = nil
+		tx.TxOutputsExt = keep
+		expect = "reject"
 	case "same": // the unmodified transaction (control)
 		if p.Outcome == "ok" {
 			expect = "accept"
